@@ -431,6 +431,11 @@ func value(r *rng.R, s *spec.Spec) any {
 // Build creates a real container from a spec through a randomly chosen construction route.
 // With r == nil the plain route (NewList(args...) / NewObject(pairs...)) is used.
 func Build(r *rng.R, s *spec.Spec) any {
+	if r != nil && r.Chance(1, 12) {
+		if v := buildViaParser(r, s); v != nil {
+			return v
+		}
+	}
 	route := 0
 	if r != nil {
 		route = r.Intn(6)
@@ -565,6 +570,93 @@ func Build(r *rng.R, s *spec.Spec) any {
 		return at.NewObject(pairs...)
 	}
 	panic("Build: spec root is not a container")
+}
+
+// buildViaParser renders the tree as text in the lenient spellings the library's parser accepts beyond JSON
+// (".5", "5.", "+1", hex and binary ints, digit separators, "T"/"F" booleans, blanks inside literals) and parses it.
+// The result is only used if it shows exactly the tree's content; otherwise nil (another route is taken).
+func buildViaParser(r *rng.R, s *spec.Spec) any {
+	if s.Size() > 300 || s.Depth() > 8 {
+		return nil
+	}
+	var b strings.Builder
+	var rec func(n *spec.Spec)
+	rec = func(n *spec.Spec) {
+		switch n.K {
+		case spec.Nil:
+			b.WriteString("null")
+		case spec.Bool:
+			if n.B {
+				b.WriteString([]string{"true", "T", "TRUE", "True", "t"}[r.Intn(5)])
+			} else {
+				b.WriteString([]string{"false", "F", "FALSE", "False", "f"}[r.Intn(5)])
+			}
+		case spec.Int:
+			switch {
+			case n.I >= 0 && r.Chance(1, 4):
+				b.WriteString("0x" + strconv.FormatInt(int64(n.I), 16))
+			case n.I >= 0 && r.Chance(1, 4):
+				b.WriteString("+" + strconv.Itoa(n.I))
+			case n.I >= 1000 && r.Chance(1, 3):
+				d := strconv.Itoa(n.I)
+				b.WriteString(d[:1] + "_" + d[1:])
+			case n.I >= 0 && r.Chance(1, 5):
+				b.WriteString("0b" + strconv.FormatInt(int64(n.I), 2))
+			default:
+				b.WriteString(strconv.Itoa(n.I))
+			}
+		case spec.Float:
+			f := strconv.FormatFloat(n.F, 'g', -1, 64)
+			if !strings.ContainsAny(f, ".eE") {
+				f += []string{".0", ".", "e0"}[r.Intn(3)]
+			}
+			if strings.HasPrefix(f, "0.") && r.Bool() {
+				f = f[1:]
+			} else if n.F > 0 && r.Chance(1, 4) {
+				f = "+" + f
+			}
+			b.WriteString(f)
+		case spec.Str:
+			b.WriteString(strconv.Quote(n.S)) // Go quoting: the parser unquotes with Go rules
+		case spec.List:
+			b.WriteByte('[')
+			for i, e := range n.L {
+				if i > 0 {
+					b.WriteString([]string{",", " , ", ",\n"}[r.Intn(3)])
+				}
+				rec(e)
+			}
+			b.WriteByte(']')
+		case spec.Obj:
+			b.WriteByte('{')
+			for i, k := range n.Keys {
+				if i > 0 {
+					b.WriteByte(',')
+				}
+				b.WriteString(strconv.Quote(k))
+				b.WriteString([]string{":", " : "}[r.Intn(2)])
+				rec(n.Vals[i])
+			}
+			b.WriteByte('}')
+		}
+	}
+	rec(s)
+	var v any
+	var err error
+	if pan, _ := Protect(func() {
+		if s.K == spec.List {
+			v, err = at.ParseList(b.String())
+		} else {
+			v, err = at.ParseObject(b.String())
+		}
+	}); pan || err != nil || v == nil {
+		return nil
+	}
+	w, werr := Walk(v)
+	if werr != nil || Diff(w, s) != "" {
+		return nil
+	}
+	return v
 }
 
 func BuildList(r *rng.R, s *spec.Spec) at.List     { return Build(r, s).(at.List) }
